@@ -39,6 +39,7 @@ def f4 : Prims Oracle :=
     constructible := fun s _ => s.pairExists
     execTx := fun s _ => if s.pairExists then .ok { s with pairExists := false } else .fatal
     roots := fun _ _ => (0, 1)
+    upgradeItem := fun _ _ => none
     eciFull := fun _ _ => (2, 463)
     eciEmpty := (3, 2)
     post := fun s _ _ => .ok (s, 0)
@@ -66,6 +67,7 @@ def f11 : Prims Bool :=
     constructible := fun s t => if t.id = 4 then !s else s
     execTx := fun s t => if t.id = 4 then (if s then .fatal else .ok true) else (if s then .ok false else .fatal)
     roots := fun _ _ => (0, 1)
+    upgradeItem := fun _ _ => none
     eciFull := fun _ _ => (2, 4)
     eciEmpty := (3, 2)
     post := fun s _ _ => .ok (s, 0)
@@ -89,6 +91,7 @@ def f12 : Prims Unit :=
     constructible := fun _ _ => true
     execTx := fun s _ => .ok s
     roots := fun _ _ => (0, 1)
+    upgradeItem := fun _ _ => none
     eciFull := fun _ _ => (2, 463)
     eciEmpty := (3, 2)
     post := fun s _ _ => .ok (s, 0)
@@ -112,7 +115,8 @@ def t7 : Tx := { id := 7, len := 233, seq := 0, group := 2 }           -- fails 
 
 /-- state = number of successfully executed transactions; prices add 1000 (they commute) -/
 def counter : Prims Nat :=
-  { veEnabled := fun _ _ => true
+  { upgradeItem := fun _ r => if r.height = 7 then some (5, 70) else none
+    veEnabled := fun _ _ => true
     veValid := fun _ _ => true
     pre := fun s _ => .ok s
     constructible := fun _ _ => true
@@ -131,5 +135,13 @@ def okItems : List Item :=
   [.root1 3, .root2 4, .eci 2 463 true, .tx t1, .tx t2, .tx t4, .tx t6]
 
 def okBlock : Block := okReq.proposed okItems 77
+
+/-- the same mempool at an upgrade height: the proposal additionally carries the upgrade change hashes -/
+def upReq : PrepReq := { okReq with height := 7 }
+
+def upItems : List Item :=
+  [.root1 3, .root2 4, .upgrade 5 70, .eci 2 463 true, .tx t1, .tx t2, .tx t4, .tx t6]
+
+def upBlock : Block := upReq.proposed upItems 78
 
 end Astria.Abci.Examples
